@@ -185,6 +185,13 @@ theorem invCap_step {s s' : State} {a : Label} (h : InvCap cfg s) (hst : step cf
       rcases List.mem_append.mp hu with hu | hu
       · exact h u hu
       · simp only [List.mem_singleton] at hu; subst hu; simp [Sub.new]
+  case subAcquireDone =>
+    bstep hst
+    · exact h
+    · intro u hu
+      rcases List.mem_append.mp hu with hu | hu
+      · exact h u hu
+      · simp only [List.mem_singleton] at hu; subst hu; simp [Sub.new]
   all_goals (bstep hst <;> (first | exact h | (refine inv_set ‹_› h ?_; simp_all; try omega)))
 
 theorem invCap {s : State} (hr : Reach (lts cfg) s) : InvCap cfg s := by
@@ -377,7 +384,7 @@ the lock or anywhere in the fan-out), the callback returns and the loop is back 
 theorem execute_completes (hfix : cfg.fixed = true) (hcap : 0 < cfg.cap) {s : State} (hr : Reach (lts cfg) s)
     {r : It} (hpc : s.p.pc = .running r) (hd : Departed stalled s) :
     ∃ s', St cfg stalled s s' ∧ s'.p = { s.p with pc := .top } ∧ s'.epc = .idle ∧ Cnt s' = Cnt s ∧
-      s'.closed = s.closed ∧ s'.waitS = s.waitS ∧ Departed stalled s' := by
+      s'.closed = s.closed ∧ s'.waitS = s.waitS ∧ Departed stalled s' ∧ s'.subs.length = s.subs.length := by
   have hC := invCtl hr
   -- reach `sending`
   have h1 : ∃ s1 i, St cfg stalled s s1 ∧ s1.epc = .sending r i ∧ Same s s1 := by
@@ -404,7 +411,7 @@ theorem execute_completes (hfix : cfg.fixed = true) (hcap : 0 < cfg.cap) {s : St
   have h3 : step cfg s2 (.proc .cbReturn) = some { s2 with p := { s2.p with pc := .top }, epc := .idle } := by
     simp [step, procStep, he2, hj, Processor.step, hp2]
   refine ⟨_, (hs1.trans hs2).trans (st_one (allowed_int rfl) h3), by simp [hsame.1], rfl, hsame.2.1, hsame.2.2.1,
-    hsame.2.2.2.1, ?_⟩
+    hsame.2.2.2.1, ?_, hsame.length⟩
   exact (hsame.departed hd)
 
 /-! ### lifting paths of the processor LTS -/
@@ -436,7 +443,7 @@ theorem lift (hfix : cfg.fixed = true) (hcap : 0 < cfg.cap) {p p' : PState}
           simp only [Processor.step] at hst'
           split at hst' <;> simp_all
         obtain ⟨r, hrun⟩ := hrun
-        obtain ⟨s1, hs1, hp1, _, hb, hc, hw, hd1⟩ := execute_completes hfix hcap hr hrun hd
+        obtain ⟨s1, hs1, hp1, _, hb, hc, hw, hd1, _⟩ := execute_completes hfix hcap hr hrun hd
         simp only [Cnt, Prod.mk.injEq] at hb
         refine ⟨s1, hs1, ?_, hb.1, by omega, hb.2.2.1, hb.2.2.2, hc, hw, hd1⟩
         rw [hp1]
@@ -560,10 +567,10 @@ theorem loop_exits {p : PState} (hstop : p.stopClosed = true) (hroot : ∀ h, p.
   have hL : ∀ (q : PState) r, q.pc = .polled r → q.stopClosed = true → (∀ h, q.root = some h → IsMin q.q h) →
       ∃ p', PSt q p' ∧ p'.pc = .absent ∧ p'.token = .free ∧ p'.cpc = q.cpc ∧ p'.stopClosed = true := by
     intro q r hq hs hro
-    by_cases hdue : r.time - q.now < halfMs
+    by_cases hdue : satDur (r.time - q.now) < halfMs
     · obtain ⟨p', h1, h2⟩ := hF { q with pc := .firing r, readAt := q.now } r rfl hs hro
       exact ⟨p', (pst_one (l := .decide) (by simp [Processor.step, hq, hdue])).trans h1, h2⟩
-    · obtain ⟨p', h1, h2⟩ := hG { q with pc := .arming r, timer := r.time - q.now, readAt := q.now } r rfl hs
+    · obtain ⟨p', h1, h2⟩ := hG { q with pc := .arming r, timer := satDur (r.time - q.now), readAt := q.now } r rfl hs
       exact ⟨p', (pst_one (l := .decide) (by simp [Processor.step, hq, hdue])).trans h1, h2⟩
   have drop : (∃ p', PSt p p' ∧ p'.pc = .absent ∧ p'.token = .free ∧ p'.cpc = p.cpc ∧ p'.stopClosed = true) →
       ∃ p', PSt p p' ∧ p'.pc = .absent ∧ p'.cpc = p.cpc ∧ p'.stopClosed = true := by
@@ -769,5 +776,68 @@ theorem close_completes (hfix : cfg.fixed = true) (hcap : 0 < cfg.cap) {s : Stat
   · rw [hp5, hp4, hp3]; exact hret2
   · rw [hr5', hcnt4.2.2.2, hcnt4.2.2.1]; omega
   · rw [hr5', hcnt4.2.2.2, hr3', hr2', hr1']; omega
+
+/-- **A departed subscriber's channel gets closed**: from every reachable state, the forwarder of a
+subscriber whose context has ended (also one that was ALREADY ended when `Subscribe` was called) or
+of any subscriber once `closeCh` is closed reaches `done` — it closes the subscriber's channel and
+removes it — after the running fan-out, if any, has completed. -/
+theorem departed_channel_closes (hfix : cfg.fixed = true) (hcap : 0 < cfg.cap) {s : State} (hr : Reach (lts cfg) s)
+    (hd : Departed stalled s) {i : Nat} {u : Sub} (hi : s.subs[i]? = some u) (hc : u.ctxDone = true ∨ s.closed = true) :
+    ∃ s' u', St cfg stalled s s' ∧ s'.subs[i]? = some u' ∧ u'.pc = .done := by
+  -- first let a running callback return (the lock must be free for the forwarder's removal)
+  have h1 : ∃ s1 u1, St cfg stalled s s1 ∧ s1.epc = .idle ∧ s1.subs[i]? = some u1 ∧
+      (u1.ctxDone = true ∨ s1.closed = true) := by
+    have hC := invCtl hr
+    cases he : s.epc with
+    | idle => exact ⟨s, u, Steps.refl _, he, hi, hc⟩
+    | waiting r =>
+      have hpc := hC.2.1 r he
+      rcases hc with hc | hc
+      · -- keep subscriber `i` among the stalled ones so that its `ctxDone` is tracked along the path
+        have hd' : Departed (fun j => stalled j ∨ j = i) s := by
+          intro j v hj hs
+          rcases hs with hs | rfl
+          · exact hd j v hj hs
+          · rw [hi] at hj; cases hj; exact hc
+        obtain ⟨s1, hs1, _, he1, _, _, _, hd1, hlen⟩ := execute_completes (stalled := fun j => stalled j ∨ j = i) hfix hcap hr hpc hd'
+        have hlt : i < s1.subs.length := by rw [hlen]; exact lt_of_getElem? hi
+        have hi1 : s1.subs[i]? = some s1.subs[i] := List.getElem?_eq_getElem hlt
+        refine ⟨s1, _, Steps.mono ?_ hs1, he1, hi1, Or.inl (hd1 i _ hi1 (Or.inr rfl))⟩
+        rintro a (ha | ⟨j, rfl, hj⟩)
+        · exact Or.inl ha
+        · exact Or.inr ⟨j, rfl, fun h => hj (Or.inl h)⟩
+      · obtain ⟨s1, hs1, _, he1, _, hcl1, _, _, hlen⟩ := execute_completes hfix hcap hr hpc hd
+        have hlt : i < s1.subs.length := by rw [hlen]; exact lt_of_getElem? hi
+        exact ⟨s1, _, hs1, he1, List.getElem?_eq_getElem hlt, Or.inr (hcl1.trans hc)⟩
+    | sending r k =>
+      have hpc := hC.2.2.1 r k he
+      rcases hc with hc | hc
+      · have hd' : Departed (fun j => stalled j ∨ j = i) s := by
+          intro j v hj hs
+          rcases hs with hs | rfl
+          · exact hd j v hj hs
+          · rw [hi] at hj; cases hj; exact hc
+        obtain ⟨s1, hs1, _, he1, _, _, _, hd1, hlen⟩ := execute_completes (stalled := fun j => stalled j ∨ j = i) hfix hcap hr hpc hd'
+        have hlt : i < s1.subs.length := by rw [hlen]; exact lt_of_getElem? hi
+        have hi1 : s1.subs[i]? = some s1.subs[i] := List.getElem?_eq_getElem hlt
+        refine ⟨s1, _, Steps.mono ?_ hs1, he1, hi1, Or.inl (hd1 i _ hi1 (Or.inr rfl))⟩
+        rintro a (ha | ⟨j, rfl, hj⟩)
+        · exact Or.inl ha
+        · exact Or.inr ⟨j, rfl, fun h => hj (Or.inl h)⟩
+      · obtain ⟨s1, hs1, _, he1, _, hcl1, _, _, hlen⟩ := execute_completes hfix hcap hr hpc hd
+        have hlt : i < s1.subs.length := by rw [hlen]; exact lt_of_getElem? hi
+        exact ⟨s1, _, hs1, he1, List.getElem?_eq_getElem hlt, Or.inr (hcl1.trans hc)⟩
+  obtain ⟨s1, u1, hs1, he1, hi1, hc1⟩ := h1
+  have hr1 := hs1.reach hr
+  by_cases hdone : u1.pc = .done
+  · exact ⟨s1, u1, hs1, hi1, hdone⟩
+  · have hS := invSub hr1 u1 (List.mem_of_getElem? hi1)
+    obtain ⟨u', hs2, hpc', _, _, _⟩ := fwd_leave (cfg := cfg) (stalled := stalled) hi1 hdone hc1
+      (fun hw => by rw [hfix]; exact hS.2.2.2 hfix hw)
+    have hi' : (setSub s1 i u').subs[i]? = some u' := get_setSub hi1
+    have hlf : lockFree (setSub s1 i u') = true := by simp [lockFree, setSub, he1]
+    have h3 := do_remove (cfg := cfg) hi' hpc' hlf
+    rw [setSub_setSub] at h3
+    exact ⟨_, _, hs1.trans (hs2.trans (st_one (allowed_int rfl) h3)), get_setSub hi1, rfl⟩
 
 end Kit.Batcher
